@@ -1032,7 +1032,8 @@ def _export(which, **kw):
 
         fh = io.StringIO()
         if which == "tbl":
-            collection_to_tbl([o], fh, locus_tag_prefix="LTP", submitter_lab_name="lab", genbank_flavor=GenbankFlavor[kw["flavor"]])
+            # random_seed always given: without it protein_id / transcript_id are documented to be random strings
+            collection_to_tbl([o], fh, locus_tag_prefix="LTP", submitter_lab_name="lab", random_seed=0, genbank_flavor=GenbankFlavor[kw["flavor"]])
         elif which == "tbl-seeded":
             collection_to_tbl([o], fh, random_seed=11, genbank_flavor=GenbankFlavor[kw["flavor"]])
         elif which == "gff3":
